@@ -316,7 +316,9 @@ def build(run):
                         "'moderate' = largest magnitude of the row in (0, dtype_max/4]; 'extreme' = above; the extreme and (float8) all-zero cases are known findings"]
     run.assumptions += ["zero-layer clause: F.linear(x, quantize_weight(0, qtype, axis 0), bias) with float activations (the QLinear forward without activation "
                         "quantization); the contraction is an uninterpreted sum whose summands are proved zero, 'a sum of zeros is zero' is assumed (A-TORCH-RED)"]
-    run.not_decided += ["zero-layer clause with quantized activations / group-wise low-bit weights",
+    run.not_decided += ["error bound for rows whose largest magnitude is below 256 x the smallest normal number of the dtype ('tiny'): only finiteness is decided "
+                        "there (integer qtypes: proved; float8: known finding); a change that only degrades the accuracy of such rows is not noticed (seeded C16_6)",
+                        "zero-layer clause with quantized activations / group-wise low-bit weights",
                         "calibration followed by inference across several batches (EMA of scales): the per-batch chain is decided here, the EMA law under C12"]
     E0 = run.engine()
     for key in (f"{ABSO}::AbsmaxOptimizer.optimize", f"{MAXO}::MaxOptimizer.optimize", f"{SYMQ}::SymmetricQuantizer.forward", f"{AFFQ}::AffineQuantizer.forward",
